@@ -167,8 +167,9 @@ func atomicLoad(fr *frame, a []Value) Value {
 		e.race.atomic = true
 		defer func() { e.race.atomic = false }()
 	}
+	v := th.load(nil, a[0])
 	atomicSync(th, a[0], true, false)
-	return th.load(nil, a[0])
+	return v
 }
 
 func atomicStore(fr *frame, a []Value) Value {
